@@ -760,7 +760,15 @@ Proof.
     { apply H4. exists (i, c). split; [reflexivity|exact Hin]. }
     rewrite Hfc in Hx. now apply negb_true_iff.
   - split; [eapply multi_bound; eassumption|]. split; [now apply N.leb_le|].
-    intros f Hf. rewrite forallb_forall in H3. apply N.leb_le. auto.
+    intros f Hf. unfold prop_timeout_frames in H3. rewrite forallb_forall in H3. apply N.leb_le. auto.
+Qed.
+
+(* the predicate the driver evaluates on a rejected timed-out request holds of every accepted one *)
+Lemma timeout_prop_frames p idem spec cl0 nodes down cs assign frs t0 tmo tret margin :
+  check_timeout p idem spec cl0 nodes down cs assign frs t0 tmo tret margin = true ->
+  prop_timeout_frames tret margin frs = true.
+Proof.
+  unfold check_timeout. intros H. apply andb_true_iff in H as [H _]. now apply andb_true_iff in H as [_ H].
 Qed.
 
 Lemma shards_ok_pair down pre f g post :
